@@ -95,6 +95,14 @@ def _schema_cases(tier):
                     [(''.join('<c>%s</c>' % x for x in lits), '', {'c': [(T, x) for x in lits]}), ('<c>%s</c>' % lits[0], '', {'c': [(T, lits[0])]})]))
         out.append(('attribute:' + T, 'attribute', T, '<xs:element name="c" type="xs:string" minOccurs="0"/>', '<xs:attribute name="a" type="xs:%s"/>' % T,
                     [('<c>x</c>', ' a="%s"' % lits[0].strip(), {'attrs': {'a': (T, lits[0].strip())}, 'c': [('string', 'x')]})]))
+    # years before 1 (the two XSD versions number them differently) and the year 0000 of XSD 1.1
+    for T, bce, y0 in (('dateTime', '-0001-12-31T00:00:00', '0000-02-29T12:00:00Z'), ('date', '-0001-12-31', '0000-02-29'), ('gYear', '-0001', '0000'), ('gYearMonth', '-0001-12', '0000-02')):
+        out.append(('bce:' + T, 'atomic', T, '<xs:element name="c" type="xs:%s" maxOccurs="unbounded"/>' % T, '<xs:attribute name="a" type="xs:%s"/>' % T,
+                    [('<c>%s</c><c>%s</c>' % (bce, LEX[T][0]), ' a="%s"' % bce, {'c': [(T, bce), (T, LEX[T][0])], 'attrs': {'a': (T, bce)}})]))
+        out.append(('year0:' + T, 'year0', T, '<xs:element name="c" type="xs:%s" maxOccurs="unbounded"/>' % T, '<xs:attribute name="a" type="xs:%s"/>' % T,
+                    [('<c>%s</c>' % y0, ' a="%s"' % y0, {'c': [(T, y0)], 'attrs': {'a': (T, y0)}})]))
+        out.append(('bce-list:' + T, 'list', T, '<xs:element name="c" maxOccurs="unbounded"><xs:simpleType><xs:list itemType="xs:%s"/></xs:simpleType></xs:element>' % T, '',
+                    [('<c>%s %s</c>' % (bce, LEX[T][0]), '', {'lists': [('/r/c[1]', T, [bce, LEX[T][0]])]})]))
     out.append(('list:int', 'list', 'int', '<xs:element name="c" maxOccurs="unbounded"><xs:simpleType><xs:list itemType="xs:int"/></xs:simpleType></xs:element>', '',
                 [('<c>1 2 3</c><c>7</c>', '', {'list': [['1', '2', '3'], ['7']], 'item': 'int'})]))
     out.append(('list:NMTOKEN', 'list', 'NMTOKEN', '<xs:element name="c" maxOccurs="unbounded"><xs:simpleType><xs:list itemType="xs:NMTOKEN"/></xs:simpleType></xs:element>', '',
@@ -205,7 +213,7 @@ def plan(tier, seed):
     units += [{'kind': 'reuse', 'ver': v, 'lib': lib, 'via': via, 'depth': REUSE_DEPTH[tier]} for v in ('1.0', '1.1') for lib in ('etree', 'lxml') for via in ('root', 'item')]
     return {
         'units': units,
-        'bounds': {'reuse_history_depth': REUSE_DEPTH[tier], 'same_name_types': len(SAME_NAME_TYPES) + (len(SAME_NAME_MORE) if tier == 'thorough' else 0), 'reuse_alphabet': ['schema A', 'schema B', 'no schema'], 'schemas': len(cases), 'xsd_versions': ['1.0', '1.1'], 'libraries': ['etree', 'lxml'], 'paths': len(PATHS), 'atomic_types': len(LEX)},
+        'bounds': {'reuse_history_depth': REUSE_DEPTH[tier], 'same_name_types': len(SAME_NAME_TYPES) + (len(SAME_NAME_MORE) if tier == 'thorough' else 0), 'reuse_alphabet': ['new context with schema A / B / none', 'set the schema of the current context to A / B / None', 'evaluate //@* and //*'], 'schemas': len(cases), 'xsd_versions': ['1.0', '1.1'], 'libraries': ['etree', 'lxml'], 'paths': len(PATHS), 'atomic_types': len(LEX)},
         'rule': 'every generated schema x every listed instance x both XSD versions x both tree libraries: typed value, instance-of tests along the type hierarchy, '
                 'arithmetic / comparison on typed nodes, and every path of the structural path set with and without the schema; non-trivial = always',
         'assumptions': ['instances are validated once by xmlschema itself (a generated instance that is not valid is a harness error)',
@@ -276,6 +284,9 @@ def run_case(unit, tier, acc):
         return
     if ver == '1.0' and T in ('yearMonthDuration', 'dayTimeDuration'):
         acc.outcome('skipped: XSD 1.1 type')
+        return
+    if ver == '1.0' and kind == 'year0':
+        acc.outcome('skipped: the year 0000 is not in the XSD 1.0 lexical spaces')
         return
     try:
         schema = S['cls'](xsd_text(children, attrs, globals_))
@@ -387,6 +398,19 @@ def run_case(unit, tier, acc):
                     acc.cmp()
                     if r != ('val', []):
                         acc.violation('C20|typed-value|element|nilled|not-empty', '%s: data(%s) on %s' % (cid, path, text), {'observed': repr(r)[:100]}, case)
+                    # a nilled element matches element(*, T?) and element(name, T?) only - never the test without '?'
+                    n_ok = len([x for x in info.get(name, []) if x is not None])
+                    for src, want_n in (('%s instance of element(*, xs:%s)' % (path, T), False), ('%s instance of element(*, xs:%s?)' % (path, T), True),
+                                        ('%s instance of element(%s, xs:%s)' % (path, name, T), False), ('%s instance of element(%s, xs:%s?)' % (path, name, T), True),
+                                        ('%s instance of element(*, xs:anyAtomicType)' % path, False), ('%s instance of element()' % path, True),
+                                        ('count(//element(%s, xs:%s))' % (name, T), n_ok), ('count(//element(*, xs:%s?))' % T, len(info.get(name, []))),
+                                        ('every $e in //element(%s, xs:%s) satisfies data($e) instance of xs:%s' % (name, T, T), True)):
+                        rn = ev(sp, src, mk_s)
+                        acc.ev()
+                        acc.cmp()
+                        if rn != ('val', want_n):
+                            acc.violation('C20|instance-of-element-type|nilled|%s' % ('accepted-without-?' if want_n is False or isinstance(want_n, int) and not isinstance(want_n, bool) else 'rejected'),
+                                          '%s: %s on %s' % (cid, src, text), {'expected': want_n, 'observed': repr(rn)[:100]}, case)
                     continue
                 typed_checks(path, decl, 'element')
         for an, decl in info.get('attrs', {}).items():
@@ -522,12 +546,15 @@ def run_case(unit, tier, acc):
     acc.sample({'schema_case': cid, 'xsd_version': ver, 'library': lib, 'instance': '<r%s>%s</r>' % (instances[0][1], instances[0][0])}, limit=1)
 
 
-REUSE_DEPTH = {'quick': 3, 'thorough': 6}
+REUSE_DEPTH = {'quick': 3, 'thorough': 5}
 REUSE_SCHEMAS = {'A': ('int', 'decimal', 'date'), 'B': ('NMTOKEN', 'string', 'gYear')}     # types of /r/c, /r/@a and /r/d in the two schemas
 
 
 def run_reuse(unit, tier, acc):
-    """Shape S: one node tree, a history of contexts bound to schema A / schema B / no schema; state = the binding history."""
+    """Shape S: ONE node tree and a history of operations on it: a new context bound to schema A / schema B / no schema, the schema of the
+    current context set to A / B / None, and a schema-less or schema-aware evaluation that touches every attribute and element (so that the
+    lazily built attribute nodes exist before the next binding).  After every operation that leaves the current context bound to a schema
+    the typed values of elements, of the root's attribute and of a child element's attribute are the ones of that schema."""
     from elementpath import XPathContext, get_node_tree
     from elementpath.xpath31 import XPath31Parser
     ver, lib, via = unit['ver'], unit['lib'], unit['via']
@@ -537,56 +564,71 @@ def run_reuse(unit, tier, acc):
     else:
         import xml.etree.ElementTree as ET
     ns = {'xs': 'http://www.w3.org/2001/XMLSchema'}
-    text = '<r a="7"><c>12</c><c>3</c><d>2000</d></r>'.replace('2000', '2000-01-01')
-    lit = {'c1': '12', 'c2': '3', 'a': '7', 'd': '2000-01-01'}
+    text = '<r a="7"><c b="5">12</c><c>3</c><d>2000-01-01</d></r>'
+    lit = {'c1': '12', 'c2': '3', 'a': '7', 'd': '2000-01-01', 'b': '5'}
+    types = {'A': {'c1': 'int', 'c2': 'int', 'a': 'decimal', 'd': 'date', 'b': 'int'}, 'B': {'c1': 'NMTOKEN', 'c2': 'NMTOKEN', 'a': 'string', 'd': 'string', 'b': 'NMTOKEN'}}
     proxies, parsers = {}, {}
-    for name, (tc, ta, td) in REUSE_SCHEMAS.items():
-        td_ = td if name == 'A' else 'string'
-        schema = S['cls'](xsd_text('<xs:element name="c" type="xs:%s" maxOccurs="unbounded"/><xs:element name="d" type="xs:%s"/>' % (tc, td_), '<xs:attribute name="a" type="xs:%s"/>' % ta))
+    for name, t in types.items():
+        schema = S['cls'](xsd_text('<xs:element name="c" maxOccurs="unbounded"><xs:complexType><xs:simpleContent><xs:extension base="xs:%s"><xs:attribute name="b" type="xs:%s"/>'
+                                   '</xs:extension></xs:simpleContent></xs:complexType></xs:element><xs:element name="d" type="xs:%s"/>' % (t['c1'], t['b'], t['d']),
+                                   '<xs:attribute name="a" type="xs:%s"/>' % t['a']))
         if not schema.is_valid(ET.fromstring(text)):
             raise RuntimeError('harness: reuse instance is not valid for schema ' + name)
         proxies[name] = schema.xpath_proxy
         parsers[name] = XPath31Parser(namespaces=ns, schema=proxies[name], xsd_version=ver)
-    types = {'A': {'c1': 'int', 'c2': 'int', 'a': 'decimal', 'd': 'date'}, 'B': {'c1': 'NMTOKEN', 'c2': 'NMTOKEN', 'a': 'string', 'd': 'string'}}
-    B_lit_ok = all(A.parse(types['B'][k], lit[k], ver) is not None for k in lit)
-    paths = {'c1': '/r/c[1]', 'c2': '/r/c[2]', 'a': '/r/@a', 'd': '/r/d'}
-    alphabet = ['A', 'B', 'N']
+    plain = S['plain']
+    paths = {'c1': '/r/c[1]', 'c2': '/r/c[2]', 'a': '/r/@a', 'd': '/r/d', 'b': '/r/c[1]/@b'}
+    alphabet = ['newA', 'newB', 'newN', 'setA', 'setB', 'setN', 'touch']
     for depth in range(1, unit.get('depth', 3) + 1):
         for hist in itertools.product(alphabet, repeat=depth):
-            if 'B' in hist and not B_lit_ok:
-                continue
+            if not hist[0].startswith('new'):
+                continue            # the first operation creates the first context
             tree = get_node_tree(ET.fromstring(text))
             case = {'kind': 'reuse', 'ver': ver, 'lib': lib, 'via': via, 'depth': unit.get('depth', 3), 'history': list(hist)}
             acc.case(True)
-            for step, b in enumerate(hist):
+            ctx, bound = None, None
+            for step, op in enumerate(hist):
                 try:
-                    if via == 'root':
-                        ctx = XPathContext(root=tree, schema=proxies.get(b), namespaces=ns)
+                    if op.startswith('new'):
+                        bound = {'A': 'A', 'B': 'B', 'N': None}[op[3]]
+                        if via == 'root':
+                            ctx = XPathContext(root=tree, schema=proxies.get(bound), namespaces=ns)
+                        else:
+                            ctx = XPathContext(root=tree, item=tree, schema=proxies.get(bound), namespaces=ns)
+                    elif op.startswith('set'):
+                        bound = {'A': 'A', 'B': 'B', 'N': None}[op[3]]
+                        ctx.schema = proxies.get(bound)
                     else:
-                        ctx = XPathContext(root=tree, item=tree, schema=proxies.get(b), namespaces=ns)
+                        (parsers[bound] if bound else plain).parse('(count(//@*), count(//*), string-join(//@*, ""))').evaluate(ctx)
                 except Exception as e:  # noqa
-                    acc.violation('C20|reuse|context-creation-fails', 'history %s step %d' % (''.join(hist), step), {'error': repr(e)[:120]}, case)
+                    acc.violation('C20|reuse|operation-fails', 'history %s step %d' % (' '.join(hist), step), {'error': repr(e)[:120]}, case)
                     break
-                if b == 'N':
-                    continue        # what a schema-less context sees on a tree typed by an earlier context is not judged
+                if bound is None:
+                    continue        # what a schema-less context sees on a tree typed earlier is not judged
                 acc.ev()
+                bad = False
                 for k, path in paths.items():
-                    tname = types[b][k]
+                    tname = types[bound][k]
                     canon = A.canonical(tname, A.parse(tname, lit[k], ver), ver)
                     try:
-                        r = parsers[b].parse('data(%s) instance of xs:%s' % (path, tname)).evaluate(ctx)
-                        r2 = parsers[b].parse('string(data(%s))' % path).evaluate(ctx)
+                        r = parsers[bound].parse('data(%s) instance of xs:%s' % (path, tname)).evaluate(ctx)
+                        r2 = parsers[bound].parse('string(data(%s))' % path).evaluate(ctx)
                     except Exception as e:  # noqa
                         r, r2 = 'error', repr(e)[:100]
                     acc.ev(2)
                     acc.cmp()
                     acc.outcome('reuse:%s' % ('typed' if r is True else 'not-typed'))
                     if r is not True or r2 != canon:
-                        prev = ''.join(hist[:step])
-                        acc.violation('C20|reuse|%s|after-%s' % ('attribute' if k == 'a' else 'element', 'same-schema' if b in prev else 'other-binding' if prev else 'nothing'),
-                                      'history %s, step %d (schema %s): data(%s)' % (''.join(hist), step, b, path), {'expected_type': tname, 'instance_of': repr(r), 'string': r2, 'expected_string': canon}, case)
+                        prev = [h for h in hist[:step]]
+                        what = 'root-attribute' if k == 'a' else 'child-attribute' if k == 'b' else 'element'
+                        after = 'nothing' if not prev else 'touch' if prev[-1] == 'touch' else 'same-schema' if prev[-1][3:] == bound else 'no-schema' if prev[-1][3:] == 'N' else 'other-schema'
+                        acc.violation('C20|reuse|%s|%s|after-%s' % (what, op[:3], after),
+                                      'history %s, step %d (schema %s): data(%s)' % (' '.join(hist), step, bound, path), {'expected_type': tname, 'instance_of': repr(r), 'string': r2, 'expected_string': canon}, case)
+                        bad = True
                         break
-    acc.sample({'unit': 'reuse', 'xsd_version': ver, 'library': lib, 'context': via, 'instance': text}, limit=1)
+                if bad:
+                    break
+    acc.sample({'unit': 'reuse', 'xsd_version': ver, 'library': lib, 'context': via, 'instance': text, 'operations': alphabet}, limit=1)
 
 
 def fam(T):
